@@ -112,8 +112,11 @@ type Provider struct {
 	ipSinkSource   chan gostatsd.Source
 	infoSinkSource chan gostatsd.InstanceInfo
 
-	rw    sync.RWMutex // Protects cache
+	rw    sync.RWMutex // Protects cache and invalidations
 	cache map[gostatsd.Source]*gostatsd.Instance
+	// invalidations counts the cache invalidations. A lookup that read a Pod from the informer before an
+	// invalidation must not store what it computed after it, the Pod may be the one that was invalidated.
+	invalidations uint64
 }
 
 func (p *Provider) IpSink() chan<- gostatsd.Source {
@@ -168,6 +171,7 @@ func (p *Provider) Run(ctx context.Context) {
 func (p *Provider) instanceFromCache(ip gostatsd.Source) *gostatsd.Instance {
 	p.rw.RLock()
 	instance := p.cache[ip]
+	invalidations := p.invalidations
 	p.rw.RUnlock()
 	if instance != nil {
 		// Instance found
@@ -179,7 +183,9 @@ func (p *Provider) instanceFromCache(ip gostatsd.Source) *gostatsd.Instance {
 	// Holding the lock around the whole block would prevent concurrent calculations but also ALL lookups.
 	// This is unacceptable.
 	p.rw.Lock()
-	p.cache[ip] = instance
+	if p.invalidations == invalidations {
+		p.cache[ip] = instance
+	}
 	p.rw.Unlock()
 	return instance
 }
@@ -464,5 +470,6 @@ func (e cacheInvalidationHandler) maybeInvalidateCacheForPod(pod *core_v1.Pod) {
 	}
 	e.p.rw.Lock()
 	delete(e.p.cache, gostatsd.Source(pod.Status.PodIP))
+	e.p.invalidations++
 	e.p.rw.Unlock()
 }
